@@ -101,6 +101,74 @@ Theorem C12_idempotent_after_one :
 Proof. exact idempotent_after_one. Qed.
 Print Assumptions C12_idempotent_after_one.
 
+(** Rounding to binary32 twice is rounding once, for EVERY rational (round-to-nearest-even, subnormals included; the domain
+    of [r32]: overflow is not modelled, values beyond the float32 range keep 24 significant bits).  [r32] is the function the
+    correspondence compares with torch's float32 cast on sampled, edge and exact-tie values on every run. *)
+From Leaspy Require Import Io.R32 Io.R32Proofs.
+Theorem C12_r32_idempotent : forall q : Q, r32 (r32 q) = r32 q.
+Proof. exact r32_idempotent. Qed.
+Print Assumptions C12_r32_idempotent.
+
+(** ... so [C12_idempotent_after_one] needs NO hypothesis on the cast when the cast is the executable float32 rounding:
+    every well-formed default-named model, whatever shapes / precision / mixing matrix it holds, is a fixed point of
+    save∘load after one round. *)
+Theorem C12_idempotent_after_one_r32 :
+  forall (derive : mkind -> Z -> Z -> list (string * tensor) -> tensor) (ver : string) (m : model),
+    wf m -> default_named m ->
+    exists dct m1, save ver m = Ok dct /\ load r32 derive dct = Ok m1 /\
+      exists dct1 m2, save ver m1 = Ok dct1 /\ load r32 derive dct1 = Ok m2 /\
+        save ver m2 = Ok dct1 /\ m_params m2 = m_params m1 /\ m_kind m2 = m_kind m /\ m_name m2 = m_name m /\
+        m_features m2 = m_features m /\ dimension m2 = dimension m /\ m_sdim m2 = m_sdim m /\ m_obs m2 = m_obs m /\
+        m_nclusters m2 = m_nclusters m /\ m_nb_events m2 = m_nb_events m /\ m_fit_metrics m2 = m_fit_metrics m.
+Proof. intros derive ver m W N. exact (idempotent_after_one r32 derive ver m W N (cast_idem_on_r32 m)). Qed.
+Print Assumptions C12_idempotent_after_one_r32.
+
+(** The same facts for the parametric rounding [round_bin] of Io/F32.v ([f32] = round_bin 24 (-126) 127, [f64], and
+    [store32] = float64 then float32: the cast of the ingestion model of C14 / C20), wherever the rounding is defined
+    (normal range; outside it [round_bin] answers [None]): rounding twice is rounding once, rounding is monotone, the
+    float32 store is monotone.  Stated here because they are the float side of this property; C14 / C20 use them by name. *)
+From Leaspy Require Io.F32 Io.F32Proofs.
+Theorem C12_round_bin_idempotent : forall (p emin emax : Z) (q x : Q), (1 <= p)%Z ->
+  F32.round_bin p emin emax q = Some x -> F32.round_bin p emin emax x = Some x.
+Proof. exact F32Proofs.round_bin_idempotent. Qed.
+Print Assumptions C12_round_bin_idempotent.
+
+Theorem C12_round_bin_monotone : forall (p emin emax : Z) (q1 q2 x1 x2 : Q), (1 <= p)%Z -> (q1 <= q2)%Q ->
+  F32.round_bin p emin emax q1 = Some x1 -> F32.round_bin p emin emax q2 = Some x2 -> (x1 <= x2)%Q.
+Proof. exact F32Proofs.round_bin_monotone. Qed.
+Print Assumptions C12_round_bin_monotone.
+
+Theorem C12_store32_monotone : forall q1 q2 : Q,
+  (exists a b, F32.f64 q1 = Some a /\ F32.f32 a = Some b) -> (exists a b, F32.f64 q2 = Some a /\ F32.f32 a = Some b) ->
+  (q1 <= q2)%Q -> (F32.store32 q1 <= F32.store32 q2)%Q.
+Proof. exact F32Proofs.store32_monotone. Qed.
+Print Assumptions C12_store32_monotone.
+
+(** ... and both roundings are defined on [2^-126, 2^126) *)
+Theorem C12_store32_defined : forall q : Q, (F32.pow2 (-126) <= q)%Q -> (q < F32.pow2 126)%Q ->
+  exists a b, F32.f64 q = Some a /\ F32.f32 a = Some b.
+Proof. exact F32Proofs.store32_defined. Qed.
+Print Assumptions C12_store32_defined.
+
+(** [F32.f32] and [r32] are the same function wherever [f32] is defined (normal range of binary32): the cast of the save/load
+    model and the float32 store of the ingestion model are one rounding; hence [r32] is monotone there. *)
+From Leaspy Require Io.F32R32Proofs.
+Theorem C12_f32_is_r32 : forall q x : Q, F32.f32 q = Some x -> r32 q = x.
+Proof. exact F32R32Proofs.f32_is_r32. Qed.
+Print Assumptions C12_f32_is_r32.
+
+Theorem C12_r32_monotone_normal : forall q1 q2 : Q,
+  (F32.pow2 (-126) <= q1)%Q -> (q1 <= q2)%Q -> (q2 < F32.pow2 127)%Q -> (r32 q1 <= r32 q2)%Q.
+Proof. exact F32R32Proofs.r32_monotone_normal. Qed.
+Print Assumptions C12_r32_monotone_normal.
+
+(** The age collision of C14 (finding F9b, C14_roundtrip_collision_refuted) is not one witness: EVERY two ages
+    a <= b in [70, 70.000003] are stored as the single float32 age 70. *)
+Theorem C12_store32_collision_interval : forall a b : Q, (70 <= a)%Q -> (a <= b)%Q -> (b <= 70000003 # 1000000)%Q ->
+  (F32.store32 a == 70)%Q /\ (F32.store32 b == 70)%Q.
+Proof. exact F32Proofs.store32_collision_interval. Qed.
+Print Assumptions C12_store32_collision_interval.
+
 (** The unrestricted statements are false of the code (each witness is replayed on the implementation by the check). *)
 Theorem C12_instance_name_refuted :
   exists m, wf m /\ forall cast derive, exists d, save "2.0.2" m = Ok d /\ load cast derive d = Err ValueError.
